@@ -20,6 +20,14 @@ Observation point: ``Grid.bounds`` (radians, ``[[lat_min, lat_max], [lon_min, lo
   ``normalize_cartesian_coordinates()``.  The oracle judges against the positions exactly as supplied
   (float32 forms with tolerance 2e-5 rad).  The Lean model is over a field: dtype promotion of the
   inputs is exercised here, not modelled.  A numba TypingError for a dtype is noted, not judged (C08).
+* SIZE is a random dimension of every face (``draw_size``): diameters log-uniform from ~1e-7 rad
+  (sub-metre) to ~1.2 rad, anisotropic faces (thin in latitude, thin in longitude, oblique) down to a
+  thin extent of ~1e-6 rad, at every location class (anywhere, across longitude 0 / 180, pole
+  enclosed, corner on a pole, a few diameters beside a pole, corners exactly on the equator).  All
+  margins of the admissibility filter are relative to the face, rejections are counted per size
+  decade (``generator-rejected:*``), and the tolerance of the verdict scales with the face:
+  tol = clamp(1e-6 * diameter, 1e-12, 1e-9) rad (plus the conditioning of arcsin at a pole,
+  8e-16 / distance-to-pole).  An exception from ``Grid.bounds`` on an admissible face is a spec failure.
 """
 
 from __future__ import annotations
@@ -607,12 +615,19 @@ def classify(face, kind):
                 crosses = True
                 q = a + t * (b - a)
                 xs.append(q / np.linalg.norm(q))
+    # the end point (1,0,0) of the reference arc lies ON the boundary (an edge along the equator through
+    # longitude 0), or a corner lies within 1e-7 rad of a pole (the start point of the reference arc,
+    # compared with ERROR_TOLERANCE = 1e-8): whether these touches are counted is decided by rounding
+    ref_on_bnd = any(P[i][2] == 0.0 and P[(i + 1) % n][2] == 0.0 and P[i][1] * P[(i + 1) % n][1] <= 0
+                     and P[i][0] > 0 and P[(i + 1) % n][0] > 0 for i in range(n))
+    pole_hit = any(0 < math.hypot(p[0], p[1]) < 1e-7 for p in P)
     # two crossings of the reference meridian closer than ERROR_TOLERANCE are merged by _unique_points
     merged = any(float(np.linalg.norm(xs[i] - xs[j])) < 1.5e-8 for i in range(len(xs)) for j in range(i))
     pm = pole_margin_of(face)
     colats = [math.atan2(math.hypot(p[0], p[1]), abs(p[2])) for p, c in zip(P, face) if not is_pole_corner(c)]
     snap = bool(colats) and min(colats) < SNAP_ZONE
-    return dict(snap_zone=snap, diameter=diameter(P), crossings_merged=merged, pole_corner=pc, enclosed=(not pc and (mn > pm or ms > pm)), loc=loc,
+    return dict(snap_zone=snap, diameter=diameter(P), crossings_merged=merged, ref_point_on_boundary=ref_on_bnd,
+                corner_within_1e7_of_pole=pole_hit, pole_corner=pc, enclosed=(not pc and (mn > pm or ms > pm)), loc=loc,
                 ref_inside=ref_in, corner_on_ref_meridian=on_ref, crosses_ref_meridian=crosses, kind=kind)
 
 
@@ -727,11 +742,14 @@ def judge(ctx, face, kind, obs, form=None):
         return dl > tol or dlon > tol
 
     if differs(ib, mb):
-        if cl["corner_on_ref_meridian"]:
-            # a crossing of the reference arc exactly AT a corner: whether it is counted is decided by
-            # end-point rounding inside point_within_gca, which the model idealises (C14's subject);
-            # the implementation's box has just been judged by the oracle, only the comparison is skipped
-            ctx.hit("degenerate:corner-on-ref-meridian:model-not-compared")
+        if cl["corner_on_ref_meridian"] or cl["ref_point_on_boundary"] or cl["corner_within_1e7_of_pole"]:
+            # a crossing of the reference arc exactly AT a corner / the arc's end points touching the
+            # boundary: whether it is counted is decided by end-point rounding inside point_within_gca,
+            # which the model idealises (C14's subject); the implementation's box has just been judged
+            # by the oracle, only the comparison is skipped
+            ctx.hit("degenerate:" + ("corner-on-ref-meridian" if cl["corner_on_ref_meridian"] else
+                                     "ref-point-on-boundary" if cl["ref_point_on_boundary"] else "corner-within-1e-7-of-pole")
+                    + ":model-not-compared")
         else:
             ctx.mismatch("C13/model-vs-impl", inp, impl, model)
 
@@ -780,13 +798,17 @@ def run(ctx):
                 "whole-degree lattice faces), construction by from_topology / open_grid(latlon=True) / open_grid(xyz, radius 1, 6371, 0.25) / "
                 "from_dataset, longitudes in [-180,180) or [0,360), with or without normalize_cartesian_coordinates(); the oracle judges against "
                 "the positions exactly as supplied (float32 forms: tolerance 2e-5 rad); "
-                "faces within 1e-6 of a pole on the boundary or with corners within 0.06 deg of a pole are not generated; "
+                "SIZE is drawn per face: diameter log-uniform 1e-7..1.2 rad, anisotropic faces down to ~1e-6 rad thin, the thin "
+                "direction along latitude / longitude / oblique; faces beside a pole (a few diameters away) and faces with one or two "
+                "corners exactly on the equator; verdict tolerance clamp(1e-6*diameter, 1e-12, 1e-9) rad; "
+                "faces whose pole-to-edge distance is below 1e-4 of their diameter are not generated; "
                 "distinct = distinct corner lists")
     ctx.assumptions = [
         "np.mod / deg2rad / node_x,y,z of the grid are inputs of the model (C04 is about their agreement)",
         "gca_gca_intersection / point_within_gca are idealised in the model's parity count (C14 is about them); "
         "their float behaviour enters only through the differential comparison",
-        "tolerance 1e-9 rad for enclosure, attainment and model/implementation agreement (2e-5 rad when the coordinates are float32)",
+        "tolerance clamp(1e-6*diameter, 1e-12, 1e-9) rad (+ 8e-16/distance-to-pole) for enclosure, attainment and model/implementation "
+        "agreement (2e-5 rad when the coordinates are float32)",
         "dtype promotion / conversion of the supplied coordinates is exercised by the form dimension, not modelled (the model is over a field)",
     ]
     rng = ctx.rng
